@@ -48,7 +48,7 @@ func init() {
 		Run:      ruleIso5})
 	Register(&Rule{ID: "R-ISO-6", Props: []string{"C08", "C11"}, Floor: 1,
 		Doc:      "in every lib/query function that calls Container.CreateHandlerForCreate, each return with a possibly non-nil error that is reachable from the success edge of that call is preceded on every path by a call reaching Container.Close on the new handler (a failed CREATE TABLE leaves neither lock files nor a cache entry)",
-		Controls: []string{"CtlCreateNoCleanup"},
+		Controls: []string{"CtlCreateNoCleanup", "CtlCreateCleanupClosureForgetsClose"},
 		Run:      ruleIso6})
 }
 
@@ -2936,33 +2936,167 @@ func ruleIso5(c *Ctx) {
 		}
 	}
 	if sta := c.P.Func("lib/query.SetTableAttribute"); sta != nil {
-		var calls []ssa.CallInstruction
-		for _, call := range core.Calls(sta) {
-			if f := core.StaticCallee(call); f != nil && setters[f] {
-				calls = append(calls, call)
+		// setter events: a direct setter call, or a call of a module function / local
+		// closure that runs a setter (followed two levels down). In every function of
+		// that group the events are pairwise unreachable from each other.
+		runsSetter := map[*ssa.Function]int{} // levels below which a setter is called (1 = directly)
+		var level func(f *ssa.Function, depth int) int
+		level = func(f *ssa.Function, depth int) int {
+			if f == nil || f.Blocks == nil || !inModule(f) || setters[f] {
+				return 0
 			}
+			if v, ok := runsSetter[f]; ok {
+				return v
+			}
+			runsSetter[f] = 0
+			best := 0
+			for _, call := range core.Calls(f) {
+				for _, g := range p.Callees(call) {
+					if setters[g] {
+						best = 1
+					} else if depth > 0 {
+						if l := level(g, depth-1); l > 0 && (best == 0 || l+1 < best) {
+							best = l + 1
+						}
+					}
+				}
+			}
+			runsSetter[f] = best
+			return best
+		}
+		isEvent := func(call ssa.CallInstruction) bool {
+			for _, g := range p.Callees(call) {
+				if setters[g] || level(g, 1) > 0 {
+					return true
+				}
+			}
+			return false
 		}
 		key := c.KeyAt(sta, "at most one attribute setter per path")
 		bad := ""
-		for _, a := range calls {
-			for _, b := range calls {
-				if core.Reachable(a.(ssa.Instruction), b.(ssa.Instruction), nil) {
-					bad = fmt.Sprintf("%s at %s can run after %s at %s", callDesc(p, b), c.Pos(b), callDesc(p, a), c.Pos(a))
+		total := 0
+		group := []*ssa.Function{sta}
+		seenG := map[*ssa.Function]bool{sta: true}
+		for i := 0; i < len(group); i++ {
+			f := group[i]
+			var events []ssa.CallInstruction
+			for _, call := range core.Calls(f) {
+				if !isEvent(call) {
+					continue
+				}
+				events = append(events, call)
+				for _, g := range p.Callees(call) {
+					if !setters[g] && !seenG[g] && g.Blocks != nil && inModule(g) {
+						seenG[g] = true
+						group = append(group, g)
+					}
+				}
+			}
+			total += len(events)
+			for _, x := range events {
+				for _, y := range events {
+					if core.Reachable(x.(ssa.Instruction), y.(ssa.Instruction), nil) {
+						bad = fmt.Sprintf("in %s, %s at %s can run after %s at %s", p.Name(f), callDesc(p, y), c.Pos(y), callDesc(p, x), c.Pos(x))
+					}
 				}
 			}
 		}
-		if len(calls) == 0 {
-			c.Unknown(key, c.FnPos(sta), "no setter call found in SetTableAttribute")
+		if total == 0 {
+			c.Unknown(key, c.FnPos(sta), "no call that runs an attribute setter found in SetTableAttribute or the helpers it calls (2 levels)")
 		} else if bad != "" {
 			c.Bad(key, c.FnPos(sta), bad+": a failure of the second leaves the first change in place")
 		} else {
-			c.OkN(key, c.FnPos(sta), fmt.Sprintf("%d setter calls, pairwise unreachable from each other", len(calls)), len(calls))
+			c.OkN(key, c.FnPos(sta), fmt.Sprintf("%d call(s) that run a setter in %d function(s) (SetTableAttribute and the helpers it delegates to), pairwise unreachable from each other", total, len(group)), total)
 		}
 	}
 }
 
 // ---------------------------------------------------------------------------
 // R-ISO-6
+
+// iso6IsHandler: v is the new handler (the call's result) or FileInfo.Handler.
+func iso6IsHandler(v ssa.Value, hval ssa.Value) bool {
+	for _, o := range core.Origins(v, false) {
+		if hval != nil && o == hval {
+			return true
+		}
+		if u, ok := o.(*ssa.UnOp); ok && u.Op == token.MUL {
+			if fa, ok := u.X.(*ssa.FieldAddr); ok && core.FieldOwner(fa) == "lib/query.FileInfo.Handler" {
+				return true
+			}
+		}
+	}
+	return false
+}
+
+// iso6ClosesHandler: the call closes the new handler — Container.Close /
+// CloseWithErrors on it (directly or through FileInfo.Handler), or a local
+// closure / private helper of fn (followed `depth` levels) that does so on every
+// one of its paths, with the handler captured or passed as an argument.
+func iso6ClosesHandler(p *core.Prog, fn *ssa.Function, call ssa.CallInstruction, hval ssa.Value, depth int) bool {
+	helpers := privateHelpersOf(p, fn, 2)
+	return iso6Closes(p, fn, helpers, call, func(v ssa.Value) bool { return iso6IsHandler(v, hval) }, depth)
+}
+
+func iso6Closes(p *core.Prog, root *ssa.Function, helpers map[*ssa.Function]bool, call ssa.CallInstruction, isH func(ssa.Value) bool, depth int) bool {
+	name := p.CalleeName(call)
+	if name == "lib/file.(*Container).Close" || name == "lib/file.(*Container).CloseWithErrors" {
+		for _, a := range call.Common().Args {
+			if isH(a) {
+				return true
+			}
+		}
+		return false
+	}
+	if depth == 0 {
+		return false
+	}
+	for _, f := range p.Callees(call) {
+		if f == nil || f.Blocks == nil || !inModule(f) {
+			continue
+		}
+		local := false
+		for q := f.Parent(); q != nil; q = q.Parent() {
+			if q == root {
+				local = true
+			}
+		}
+		if !local && !helpers[f] {
+			continue
+		}
+		// inside f: FileInfo.Handler, or a parameter that receives the handler
+		com := call.Common()
+		paramIsHandler := map[ssa.Value]bool{}
+		off := 0
+		if com.IsInvoke() {
+			off = 1
+		}
+		for i, a := range com.Args {
+			if i+off < len(f.Params) && isH(a) {
+				paramIsHandler[f.Params[i+off]] = true
+			}
+		}
+		inner := func(v ssa.Value) bool {
+			if iso6IsHandler(v, nil) {
+				return true
+			}
+			for _, o := range core.Origins(v, false) {
+				if paramIsHandler[o] {
+					return true
+				}
+			}
+			return false
+		}
+		closesIn := func(in ssa.Instruction) bool {
+			c2, ok := in.(ssa.CallInstruction)
+			return ok && iso6Closes(p, root, helpers, c2, inner, depth-1)
+		}
+		if core.EscapeFromEntry(f, closesIn, nil) == nil {
+			return true
+		}
+	}
+	return false
+}
 
 func ruleIso6(c *Ctx) {
 	p := c.P
@@ -3052,20 +3186,7 @@ func ruleIso6(c *Ctx) {
 				if _, isDefer := in.(*ssa.Defer); isDefer {
 					return true // clean-up registered with defer (its own condition is not modelled)
 				}
-				// the closed handler is the new one (directly or through FileInfo.Handler)
-				for _, a := range call.Common().Args {
-					for _, o := range core.Origins(a, false) {
-						if o == hval {
-							return true
-						}
-						if u, ok := o.(*ssa.UnOp); ok && u.Op == token.MUL {
-							if fa, ok := u.X.(*ssa.FieldAddr); ok && core.FieldOwner(fa) == "lib/query.FileInfo.Handler" {
-								return true
-							}
-						}
-					}
-				}
-				return false
+				return iso6ClosesHandler(p, fn, call, hval, 2)
 			}
 			// returns reachable from the success edge without crossing a close
 			first := okBlock.Instrs[0]
